@@ -1,1 +1,500 @@
-(* Proto/Rw.v -- stub, to be filled *)
+(* Proto/Rw.v -- model of the protobuf Writer/Reader of asn1rs (src/rw/proto_write.rs,
+   src/rw/proto_read.rs) as driven by the generated descriptor code (src/descriptor/*.rs,
+   asn1rs-model/src/generate/walker.rs), and of ProtobufEq (src/protocol/protobuf/peq.rs).
+
+   A generated type is described by a [pty]; SEQUENCE, SET (fields in the order the generated
+   write_seq/read_seq visits them) and the one-field wrapper of a tuple struct are all [TSeq].
+   DEFAULT components behave as required ones (write_default/read_default just delegate). *)
+From A1 Require Export Proto.Wire.
+Require Import ZifyBool ZifyNat ZifyN.
+Local Open Scope N_scope.
+
+Definition E_ILLTYPED : N := 99.   (* value does not inhabit the type: not a Rust behaviour, excluded by wf_val *)
+
+(** * Types and values *)
+Inductive pikind := KU8 | KI8 | KU16 | KI16 | KU32 | KI32 | KU64 | KI64.
+
+Inductive pty :=
+| TBool | TInt (k : pikind) | TStr | TBytes | TBits | TNull
+| TEnum (n : N)
+| TSeq (fs : list (bool * pty))      (* (optional?, type) *)
+| TSeqOf (t : pty)
+| TChoice (alts : list pty).
+
+Inductive pval :=
+| VBool (b : bool) | VInt (z : Z) | VStr (s : list N) | VBytes (l : list N)
+| VBits (bytes : list N) (bit_len : N) | VNull
+| VEnum (i : N)
+| VSeq (vs : list pval)              (* an optional component is a [VOpt] *)
+| VOpt (o : option pval)
+| VList (vs : list pval)
+| VChoice (i : N) (v : pval).
+
+(** * numbers::Constraint of the generated code: MIN / MAX as Option<i64> *)
+Definition i64_min : Z := (- Z.of_N two63)%Z.
+Definition i64_max : Z := (Z.of_N two63 - 1)%Z.
+Definition kind_min (k : pikind) : option Z :=
+  match k with
+  | KU8 | KU16 | KU32 => Some 0%Z | KU64 => None
+  | KI8 => Some (-128)%Z | KI16 => Some (-32768)%Z | KI32 => Some (-2147483648)%Z
+  | KI64 => Some i64_min
+  end.
+Definition kind_max (k : pikind) : option Z :=
+  match k with
+  | KU8 => Some 255%Z | KU16 => Some 65535%Z | KU32 => Some 4294967295%Z | KU64 => None
+  | KI8 => Some 127%Z | KI16 => Some 32767%Z | KI32 => Some 2147483647%Z
+  | KI64 => Some i64_max
+  end.
+Definition unwrap_or {A} (o : option A) (d : A) : A := match o with Some a => a | None => d end.
+
+Inductive pnum := PUInt32 | PUInt64 | PSInt32 | PSInt64.
+(* the branch structure shared by write_number and read_number *)
+Definition num_sel (mn mx : option Z) : pnum :=
+  if (0 <=? unwrap_or mn 0)%Z then
+    (if (unwrap_or mx i64_max <=? 4294967295)%Z then PUInt32 else PUInt64)
+  else if ((-2147483648 <=? unwrap_or mn i64_min) && (unwrap_or mx i64_max <=? 2147483647))%Z
+       then PSInt32 else PSInt64.
+Definition kind_sel (k : pikind) : pnum := num_sel (kind_min k) (kind_max k).
+
+(* Number::to_i64 (`self as i64`) and Number::from_i64 (`value as T`) *)
+Definition to_i64 (k : pikind) (z : Z) : Z := i64_wrap z.
+Definition wrap_signed (bits : Z) (z : Z) : Z := ((z + 2 ^ (bits - 1)) mod 2 ^ bits - 2 ^ (bits - 1))%Z.
+Definition from_i64 (k : pikind) (z : Z) : Z :=
+  match k with
+  | KU8 => z mod 256 | KU16 => z mod 65536 | KU32 => z mod 4294967296
+  | KU64 => z mod 18446744073709551616
+  | KI8 => wrap_signed 8 z | KI16 => wrap_signed 16 z | KI32 => wrap_signed 32 z
+  | KI64 => z
+  end%Z.
+Definition kind_range (k : pikind) : Z * Z :=
+  match k with
+  | KU8 => (0, 255) | KU16 => (0, 65535) | KU32 => (0, 4294967295)
+  | KU64 => (0, 18446744073709551615)
+  | KI8 => (-128, 127) | KI16 => (-32768, 32767) | KI32 => (-2147483648, 2147483647)
+  | KI64 => (i64_min, i64_max)
+  end%Z.
+Definition in_kind (k : pikind) (z : Z) : bool :=
+  let '(lo, hi) := kind_range k in ((lo <=? z) && (z <=? hi))%Z.
+
+Definition number_bytes (k : pikind) (z : Z) : list N :=
+  match kind_sel k with
+  | PUInt32 => write_uint32 (Z.to_N (to_i64 k z mod Z.of_N two32))    (* to_i64() as u32 *)
+  | PUInt64 => write_uint64 (u64_of_i64 (to_i64 k z))                 (* to_i64() as u64 *)
+  | PSInt32 => write_sint32 (i32_wrap (to_i64 k z))                   (* to_i64() as i32 *)
+  | PSInt64 => write_sint64 (to_i64 k z)
+  end.
+Definition number_read (k : pikind) (bs : list N) : res Z :=
+  match kind_sel k with
+  | PUInt32 => let! (v, _) := read_uint32 bs in Ok (from_i64 k (Z.of_N v))
+  | PUInt64 => let! (v, _) := read_uint64 bs in Ok (from_i64 k (i64_of_u64 v))
+  | PSInt32 => let! (v, _) := read_sint32 bs in Ok (from_i64 k v)
+  | PSInt64 => let! (v, _) := read_sint64 bs in Ok (from_i64 k v)
+  end.
+
+(** * Writer *)
+(* ProtobufWriter: buffer (SliceOrVec: a Vec, or a slice with `written` and a capacity),
+   state.tag_counter, is_root.  state.format is write-only in the Rust code and is not modelled. *)
+Record wst := { w_buf : list N; w_cap : option N; w_tc : N; w_root : bool }.
+Definition set_tc (st : wst) (tc : N) : wst :=
+  {| w_buf := w_buf st; w_cap := w_cap st; w_tc := tc; w_root := w_root st |}.
+Definition set_root (st : wst) (r : bool) : wst :=
+  {| w_buf := w_buf st; w_cap := w_cap st; w_tc := w_tc st; w_root := r |}.
+Definition set_buf (st : wst) (b : list N) (c : option N) : wst :=
+  {| w_buf := b; w_cap := c; w_tc := w_tc st; w_root := w_root st |}.
+
+(* io::Write::write_all on the buffer.  On the slice back end a write that does not fit fails with
+   ErrorKind::WriteZero after filling what fits; every caller propagates the error with `?`, so only the
+   outcome is kept.  (write_varint writes byte by byte; the outcome is the same.) *)
+Definition emit (bs : list N) (st : wst) : res wst :=
+  match w_cap st with
+  | None => Ok (set_buf st (w_buf st ++ bs) None)
+  | Some c =>
+      if N.of_nat (length (w_buf st) + length bs) <=? c
+      then Ok (set_buf st (w_buf st ++ bs) (Some c))
+      else Err E_IO
+  end.
+
+(* write_<primitive>: tag = tag_counter + 1; buffer.write_tagged_x(tag, ..)?; tag_counter = tag *)
+Definition emit_tagged (f : format) (payload : list N) (st : wst) : res wst :=
+  let tag := w_tc st + 1 in
+  let! st' := emit (write_tag tag f ++ payload) st in
+  Ok (set_tc st' tag).
+
+Fixpoint wr (m : mode) (t : pty) (v : pval) (st : wst) {struct t} : res wst :=
+  match t, v with
+  | TBool, VBool b => emit_tagged VarInt (write_bool b) st
+  | TInt k, VInt z => emit_tagged VarInt (number_bytes k z) st
+  | TStr, VStr s => emit_tagged LengthDelimited (write_string s) st
+  | TBytes, VBytes l => emit_tagged LengthDelimited (write_bytes l) st
+  | TBits, VBits bytes n =>
+      let! payload := bitvec_payload m bytes n in
+      emit_tagged LengthDelimited (write_bytes payload) st
+  | TNull, VNull => Ok st                                  (* write_null: nothing, counter untouched *)
+  | TEnum _, VEnum i =>
+      if w_root st then emit (write_enum_variant (u32_of_u64 i)) st
+      else emit_tagged VarInt (write_enum_variant (u32_of_u64 i)) st
+  | TSeq fs, VSeq vs =>
+      (* write_set_or_sequence *)
+      let fields :=
+        (fix fields (fs : list (bool * pty)) (vs : list pval) (st : wst) {struct fs} : res wst :=
+           match fs, vs with
+           | [], [] => Ok st
+           | (false, t) :: fs', v :: vs' => let! st1 := wr m t v st in fields fs' vs' st1
+           | (true, t) :: fs', VOpt (Some v) :: vs' => let! st1 := wr m t v st in fields fs' vs' st1
+           | (true, _) :: fs', VOpt None :: vs' => fields fs' vs' (set_tc st (w_tc st + 1))
+           | _, _ => Err E_ILLTYPED
+           end) in
+      if w_root st then
+        (* f(self) with is_root = false and a default State; afterwards is_root = true, state restored *)
+        let! st1 := fields fs vs (set_root (set_tc st 0) false) in
+        Ok (set_root (set_tc st1 (w_tc st)) true)
+      else
+        let tag := w_tc st + 1 in
+        let! inner := fields fs vs {| w_buf := []; w_cap := None; w_tc := 0; w_root := false |} in
+        let content := w_buf inner in
+        let! st1 := emit (write_tag tag LengthDelimited) st in
+        let! st2 := emit (write_varint (N.of_nat (length content))) st1 in
+        let! st3 := emit content st2 in
+        Ok (set_tc st3 tag)
+  | TSeqOf t', VList vs =>
+      (* write_set_or_sequence_of: the State (tag counter) is reset after every element *)
+      let tc0 := w_tc st in
+      let! st1 :=
+        (fix elems (vs : list pval) (st : wst) {struct vs} : res wst :=
+           match vs with
+           | [] => Ok st
+           | v :: vs' => let! st1 := wr m t' v st in elems vs' (set_tc st1 tc0)
+           end) vs st in
+      Ok (set_tc st1 (tc0 + 1))
+  | TChoice alts, VChoice i v =>
+      let idx := u32_of_u64 i in
+      let content (st : wst) :=
+        (fix pick (alts : list pty) (j : N) {struct alts} : res wst :=
+           match alts with
+           | a :: r => if j =? 0 then wr m a v st else pick r (j - 1)
+           | [] => Err E_ILLTYPED
+           end) alts i in
+      if w_root st then
+        content (set_root (set_tc st idx) false)
+      else
+        let! inner := content {| w_buf := []; w_cap := None; w_tc := idx; w_root := false |} in
+        let tag := w_tc st + 1 in
+        let! st1 := emit (write_tag tag LengthDelimited) st in
+        let! st2 := emit (write_bytes (w_buf inner)) st1 in
+        Ok (set_tc st2 tag)
+  | _, _ => Err E_ILLTYPED
+  end.
+
+Definition wst0 (cap : option N) : wst := {| w_buf := []; w_cap := cap; w_tc := 0; w_root := true |}.
+(* ProtobufWriter::default().write(v) / ProtobufWriter::from(&mut [u8; cap]).write(v), then as_bytes() *)
+Definition pwrite_vec (m : mode) (t : pty) (v : pval) : res (list N) :=
+  let! st := wr m t v (wst0 None) in Ok (w_buf st).
+Definition pwrite_slice (m : mode) (cap : N) (t : pty) (v : pval) : res (list N) :=
+  let! st := wr m t v (wst0 (Some cap)) in Ok (w_buf st).
+Definition pwrite := pwrite_vec.
+
+(** * Reader *)
+Definition range := (N * N)%type.
+Definition tagentry := (N * format * range)%type.
+Inductive rstate :=
+| Root (r : range)
+| Enclosed (tc : N) (tags : list tagentry).
+
+(* &self.source[range] *)
+Definition slice (src : list N) (r : range) : res (list N) :=
+  let '(s, e) := r in
+  if e <? s then Panic P_SLICE_RANGE
+  else if N.of_nat (length src) <? e then Panic P_SLICE_RANGE
+  else Ok (firstn (N.to_nat (e - s)) (skipn (N.to_nat s) src)).
+
+Definition add_usize (m : mode) (a b : N) : res N :=
+  if usize_max <? a + b then (if overflow_checks m then Panic P_ARITH else Ok ((a + b) mod two64))
+  else Ok (a + b).
+
+Definition nlen (l : list N) : N := N.of_nat (length l).
+
+(* read_content_offset_and_length *)
+Definition content_off_len (f : format) (sl : list N) : res (N * N) :=
+  match f with
+  | VarInt => let! (_, r) := read_varint sl in Ok (0, nlen sl - nlen r)
+  | Fixed64 => Ok (0, 8)
+  | LengthDelimited => let! (l, r) := read_varint sl in Ok (nlen sl - nlen r, l)
+  | Fixed32 => Ok (0, 4)
+  end.
+
+(* index_enclosed.  Without overflow `position` strictly increases, so the loop body runs at most
+   |source| times.  With wrapping arithmetic (release) content_end may lie before position; a body
+   execution beyond |source| times means a position was visited twice, i.e. the loop never ends
+   (the tag deque grows without bound): Panic P_UNBOUNDED. *)
+Fixpoint ie_loop (fuel : nat) (m : mode) (src : list N) (position e : N) (tags : list tagentry)
+  : res (list tagentry) :=
+  match fuel with
+  | O => Panic P_UNBOUNDED
+  | S f =>
+      if position <? e then
+        let! sl := slice src (position, e) in
+        let! (tag, fmt, rest) := read_tag sl in
+        let content_position := position + (nlen sl - nlen rest) in
+        let! (off, clen) := content_off_len fmt rest in
+        let content_position := content_position + off in
+        let! content_end := add_usize m content_position clen in
+        ie_loop f m src content_end e (tags ++ [(tag, fmt, (content_position, content_end))])
+      else Ok tags
+  end.
+Definition index_enclosed (m : mode) (src : list N) (r : range) : res rstate :=
+  let! tags := ie_loop (length src + 2) m src (fst r) (snd r) [] in
+  Ok (Enclosed 1 tags).
+
+(* tags.iter().enumerate().find_map(..) + tags.remove(index) *)
+Fixpoint take_tag (next : N) (filter : option format) (tags : list tagentry) : option (range * list tagentry) :=
+  match tags with
+  | [] => None
+  | (tag, f, r) :: rest =>
+      if (tag =? next) && match filter with None => true | Some g => format_eqb g f end
+      then Some (r, rest)
+      else match take_tag next filter rest with
+           | Some (r', rest') => Some (r', (tag, f, r) :: rest')
+           | None => None
+           end
+  end.
+
+(* next_tag_range_format_opt::<INCREMENT> *)
+Definition next_tag_range (incr : bool) (filter : option format) (st : rstate) : option range * rstate :=
+  match st with
+  | Root r => (Some r, st)
+  | Enclosed tc tags =>
+      let tc' := if incr then tc + 1 else tc in
+      match take_tag tc filter tags with
+      | Some (r, tags') => (Some r, Enclosed tc' tags')
+      | None => (None, Enclosed tc' tags)
+      end
+  end.
+
+(* next_range_format_reader *)
+Definition next_reader (src : list N) (f : format) (st : rstate) : res (list N * rstate) :=
+  let '(o, st') := next_tag_range true (Some f) st in
+  let! sl := slice src (unwrap_or o (0, 0)) in
+  Ok (sl, st').
+
+Definition hast_next_tag (st : rstate) : bool :=
+  match st with
+  | Root _ => true
+  | Enclosed tc tags => existsb (fun '(tag, _, _) => tag =? tc) tags
+  end.
+Definition increment_tag_counter (st : rstate) : rstate :=
+  match st with Root _ => st | Enclosed tc tags => Enclosed (tc + 1) tags end.
+
+Definition is_nil {A} (l : list A) : bool := match l with [] => true | _ => false end.
+
+Fixpoint rd (m : mode) (src : list N) (t : pty) (st : rstate) {struct t} : res (pval * rstate) :=
+  match t with
+  | TBool =>
+      let! (sl, st') := next_reader src VarInt st in
+      if is_nil sl then Ok (VBool false, st')
+      else let! (b, _) := read_bool sl in Ok (VBool b, st')
+  | TInt k =>
+      let! (sl, st') := next_reader src VarInt st in
+      if is_nil sl then Ok (VInt (from_i64 k 0), st')
+      else let! z := number_read k sl in Ok (VInt z, st')
+  | TStr =>
+      let! (sl, st') := next_reader src LengthDelimited st in
+      let! (s, _) := read_string sl in Ok (VStr s, st')
+  | TBytes =>
+      let! (sl, st') := next_reader src LengthDelimited st in
+      let! (b, _) := read_bytes sl in Ok (VBytes b, st')
+  | TBits =>
+      let! (sl, st') := next_reader src LengthDelimited st in
+      let! (b, _) := read_bytes sl in
+      let! (bytes, n) := bitvec_from_trailing m b in
+      Ok (VBits bytes n, st')
+  | TNull => Ok (VNull, st)
+  | TEnum n =>
+      let '(o, st') := next_tag_range true (Some VarInt) st in
+      let! index := match o with
+                    | Some r => let! sl := slice src r in let! (v, _) := read_varint sl in Ok v
+                    | None => Ok 0
+                    end in
+      if index <? n then Ok (VEnum index, st') else Err E_INVALID_VARIANT
+  | TSeq fs =>
+      (* read_set_or_sequence *)
+      let '(o, st') := next_tag_range true (Some LengthDelimited) st in
+      let! enc := index_enclosed m src (unwrap_or o (0, 0)) in
+      let! (vs, _) :=
+        (fix fields (fs : list (bool * pty)) (st : rstate) {struct fs} : res (list pval * rstate) :=
+           match fs with
+           | [] => Ok ([], st)
+           | (false, t) :: fs' =>
+               let! (v, st1) := rd m src t st in
+               let! (vs, st2) := fields fs' st1 in Ok (v :: vs, st2)
+           | (true, t) :: fs' =>
+               (* read_opt *)
+               if hast_next_tag st then
+                 let! (v, st1) := rd m src t st in
+                 let! (vs, st2) := fields fs' st1 in Ok (VOpt (Some v) :: vs, st2)
+               else
+                 let! (vs, st2) := fields fs' (increment_tag_counter st) in Ok (VOpt None :: vs, st2)
+           end) fs enc in
+      Ok (VSeq vs, st')
+  | TSeqOf t' =>
+      (* read_set_or_sequence_of *)
+      match st with
+      | Root r =>
+          (* next_tag_range::<false>() is Some(range) forever: each round re-reads the same element;
+             an Err ends the loop, otherwise the Vec grows without bound *)
+          let! _ := rd m src t' (Root r) in Panic P_UNBOUNDED
+      | Enclosed tc tags =>
+          let! (vs, kept) :=
+            (fix loop (pending : list tagentry) {struct pending} : res (list pval * list tagentry) :=
+               match pending with
+               | [] => Ok ([], [])
+               | (tag, f, r) :: rest =>
+                   if tag =? tc then
+                     let! (v, _) := rd m src t' (Root r) in
+                     let! (vs, kept) := loop rest in Ok (v :: vs, kept)
+                   else
+                     let! (vs, kept) := loop rest in Ok (vs, (tag, f, r) :: kept)
+               end) tags in
+          Ok (VList vs, Enclosed (tc + 1) kept)
+      end
+  | TChoice alts =>
+      let '(o, st') := next_tag_range true None st in
+      match o with
+      | None => Err E_MISSING
+      | Some (s, e) =>
+          let! sl := slice src (s, e) in
+          let! (tag, fmt, rest) := read_tag sl in
+          let! rest' := (if format_eqb fmt LengthDelimited
+                         then let! (_, r2) := read_varint rest in Ok r2 else Ok rest) in
+          let read := nlen sl - nlen rest' in
+          let inner := Enclosed 1 [(1, fmt, (s + read, e))] in
+          let idx := tag - 1 in                               (* tag.saturating_sub(1) *)
+          let! ov :=
+            (fix pick (alts : list pty) (j : N) {struct alts} : res (option pval) :=
+               match alts with
+               | a :: r => if j =? 0 then let! (v, _) := rd m src a inner in Ok (Some v) else pick r (j - 1)
+               | [] => Ok None
+               end) alts idx in
+          match ov with
+          | Some v => Ok (VChoice idx v, st')
+          | None => Err E_UNEXPECTED_TAG
+          end
+      end
+  end.
+
+(* ProtobufReader::from(bytes).read::<T>() *)
+Definition pread (m : mode) (t : pty) (src : list N) : res pval :=
+  let! (v, _) := rd m src t (Root (0, nlen src)) in Ok v.
+
+(** * ProtobufEq *)
+Fixpoint default_of (t : pty) : pval :=
+  match t with
+  | TBool => VBool false | TInt _ => VInt 0 | TStr => VStr [] | TBytes => VBytes []
+  | TBits => VBits [] 0 | TNull => VNull | TEnum _ => VEnum 0
+  | TSeq fs => VSeq (map (fun '(o, t) => if (o : bool) then VOpt None else default_of t) fs)
+  | TSeqOf _ => VList []
+  | TChoice alts => match alts with a :: _ => VChoice 0 (default_of a) | [] => VChoice 0 VNull end
+  end.
+
+Fixpoint list_n_eqb (a b : list N) : bool :=
+  match a, b with
+  | [], [] => true
+  | x :: a', y :: b' => (x =? y) && list_n_eqb a' b'
+  | _, _ => false
+  end.
+
+(* derived PartialEq *)
+Fixpoint pval_eqb (a b : pval) {struct a} : bool :=
+  match a, b with
+  | VBool x, VBool y => Bool.eqb x y
+  | VInt x, VInt y => (x =? y)%Z
+  | VStr x, VStr y => list_n_eqb x y
+  | VBytes x, VBytes y => list_n_eqb x y
+  | VBits x n, VBits y k => list_n_eqb x y && (n =? k)
+  | VNull, VNull => true
+  | VEnum x, VEnum y => x =? y
+  | VSeq xs, VSeq ys | VList xs, VList ys =>
+      (fix all2 (xs ys : list pval) {struct xs} : bool :=
+         match xs, ys with
+         | [], [] => true
+         | x :: xs', y :: ys' => pval_eqb x y && all2 xs' ys'
+         | _, _ => false
+         end) xs ys
+  | VOpt None, VOpt None => true
+  | VOpt (Some x), VOpt (Some y) => pval_eqb x y
+  | VChoice i x, VChoice j y => (i =? j) && pval_eqb x y
+  | _, _ => false
+  end.
+
+(* ProtobufEq: field-wise for structs (as #[derive(ProtobufEq)] expands), Option<T> as in peq.rs *)
+Fixpoint peq (t : pty) (a b : pval) {struct t} : bool :=
+  match t, a, b with
+  | TSeq fs, VSeq xs, VSeq ys =>
+      (fix fields (fs : list (bool * pty)) (xs ys : list pval) {struct fs} : bool :=
+         match fs, xs, ys with
+         | [], [], [] => true
+         | (false, t) :: fs', x :: xs', y :: ys' => peq t x y && fields fs' xs' ys'
+         | (true, t) :: fs', VOpt ox :: xs', VOpt oy :: ys' =>
+             match ox, oy with
+             | Some x, Some y => peq t x y
+             | Some x, None => pval_eqb x (default_of t)
+             | None, Some y => pval_eqb (default_of t) y
+             | None, None => true
+             end && fields fs' xs' ys'
+         | _, _, _ => false
+         end) fs xs ys
+  | TSeqOf t', VList xs, VList ys =>
+      (fix all2 (xs ys : list pval) {struct xs} : bool :=
+         match xs, ys with
+         | [], [] => true
+         | x :: xs', y :: ys' => peq t' y x && all2 xs' ys'
+         | _, _ => false
+         end) xs ys
+  | TChoice alts, VChoice i x, VChoice j y =>
+      (i =? j) &&
+      (fix pick (alts : list pty) (k : N) {struct alts} : bool :=
+         match alts with
+         | a :: r => if k =? 0 then peq a x y else pick r (k - 1)
+         | [] => false
+         end) alts i
+  | _, _, _ => pval_eqb a b
+  end.
+
+(** * Well-formedness *)
+Definition byte_list (l : list N) : bool := forallb byteb l.
+
+Fixpoint wf_ty (t : pty) : bool :=
+  match t with
+  | TEnum n => 0 <? n
+  | TSeq fs => forallb (fun '(_, t) => wf_ty t) fs
+  | TSeqOf t' => wf_ty t'
+  | TChoice alts => negb (is_nil alts) && forallb wf_ty alts
+  | _ => true
+  end.
+
+Fixpoint wf_val (t : pty) (v : pval) {struct t} : bool :=
+  match t, v with
+  | TBool, VBool _ => true
+  | TInt k, VInt z => in_kind k z
+  | TStr, VStr s => byte_list s && utf8_valid s
+  | TBytes, VBytes l => byte_list l
+  | TBits, VBits bytes n => byte_list bytes && (N.of_nat (length bytes) =? (n + 7) / 8) && (n <? two32)
+  | TNull, VNull => true
+  | TEnum n, VEnum i => i <? n
+  | TSeq fs, VSeq vs =>
+      (fix fields (fs : list (bool * pty)) (vs : list pval) {struct fs} : bool :=
+         match fs, vs with
+         | [], [] => true
+         | (false, t) :: fs', v :: vs' => wf_val t v && fields fs' vs'
+         | (true, t) :: fs', VOpt (Some v) :: vs' => wf_val t v && fields fs' vs'
+         | (true, _) :: fs', VOpt None :: vs' => fields fs' vs'
+         | _, _ => false
+         end) fs vs
+  | TSeqOf t', VList vs => forallb (wf_val t') vs
+  | TChoice alts, VChoice i v =>
+      (fix pick (alts : list pty) (k : N) {struct alts} : bool :=
+         match alts with
+         | a :: r => if k =? 0 then wf_val a v else pick r (k - 1)
+         | [] => false
+         end) alts i
+  | _, _ => false
+  end.
